@@ -726,6 +726,9 @@ class Obs:
             rng = np.random.default_rng(seed)
             random_numbers = rng.integers(0, length, size=(samples, length))
 
+        if np.shape(random_numbers) != (samples, length):
+            raise ValueError("random_numbers needs to have the shape (samples, length) = (%d, %d)." % (samples, length))
+
         if save_rng is not None:
             np.savetxt(save_rng, random_numbers, fmt='%i')
 
